@@ -122,8 +122,8 @@ type scenario struct {
 const gasProvided = uint64(1) << 40
 
 var (
-	tokFungible = []byte("FUN-aaaaaa")
-	tokSFT      = []byte("SFT-bbbbbb")
+	tokFungible = []byte("F-a") // SHORT identifiers: a key prefix with ANY spare capacity of 3 bytes or more is then written concurrently (appended into) by overlapping executions
+	tokSFT      = []byte("S-b")
 	userKey     = []byte("conc-user-key")
 	userValue   = bytes.Repeat([]byte{0x5a}, 23)
 	newURI      = []byte("https://example.org/uri/7")
